@@ -77,14 +77,22 @@ def run_seed(seed, prop=None):
         shutil.rmtree(d, ignore_errors=True)
 
 
-def run_for_property(prop, seed_value=0, only=None):
+def touched_files(patch_path):
+    import re
+
+    return set(re.findall(r"^\+\+\+ b/(\S+)", open(patch_path).read(), re.M))
+
+
+def run_for_property(prop, seed_value=0, only=None, relevant_files=None):
     seeds = [s for s in load("seeds.json") if s["property"] == prop]
     neutrals = load("neutral.json")
     if seed_value:
         import random
 
         random.Random(seed_value).shuffle(seeds)
-    res = {"seeds": 0, "fired": 0, "skipped": [], "failed": [], "neutral": 0, "neutral_silent": 0, "details": []}
+    res = {"seeds": 0, "fired": 0, "skipped": [], "failed": [], "neutral": 0, "neutral_silent": 0, "neutral_not_relevant": 0, "details": []}
+    if relevant_files is not None:
+        res["relevant_files"] = sorted(relevant_files)
     for s in seeds:
         if only and s["id"] not in only:
             continue
@@ -136,6 +144,9 @@ def run_for_property(prop, seed_value=0, only=None):
         nid = "neutral_diffs/" + os.path.basename(dp)
         if only and nid not in only:
             continue
+        if relevant_files is not None and not (touched_files(dp) & relevant_files):
+            res["neutral_not_relevant"] += 1
+            continue
         d = make_scratch()
         try:
             r = subprocess.run(["patch", "-p1", "-s", "-d", d, "-i", dp], stdout=subprocess.PIPE, stderr=subprocess.STDOUT, text=True)
@@ -156,6 +167,9 @@ def run_for_property(prop, seed_value=0, only=None):
         if only and n["id"] not in only:
             continue
         if n.get("properties") and prop not in n["properties"]:
+            continue
+        if relevant_files is not None and not (set(e["file"] for e in n["edits"]) & relevant_files):
+            res["neutral_not_relevant"] += 1
             continue
         r = run_seed(n, prop)
         res["neutral"] += 1
